@@ -225,7 +225,9 @@ def init_case(ctx, c):
     if test_ok and not actual_ok:
         i = int(np.nanargmax(np.abs(fg))) if not has_nan else int(np.argmax(~np.isfinite(fg)))
         ctx.fail('success_reported_with_nonzero_residual', dict(case=brief, residual=res, nan=has_nan, where=ss.dae.xy_name[i], tol=tol),
-                 sig=dict(nan=has_nan, offline_model=info.get('offline_model'), offline_group=info.get('offline_group')))
+                 sig=dict(nan=has_nan, offline_model=info.get('offline_model'), offline_group=info.get('offline_group'),
+                          where_var=ss.dae.xy_name[i].split()[0], where_model=(ss.dae.xy_name[i].split() + ['', ''])[1]))
+        return          # the reported point is not an equilibrium: the clauses that presuppose one are not evaluated
     if (not test_ok) and actual_ok and res < 0.5 * tol:
         ctx.fail('failure_reported_with_zero_residual', dict(case=brief, residual=res, tol=tol), sig=dict())
     if (not test_ok) and ss.exit_code <= code0:
